@@ -3,7 +3,7 @@
 #   patch applies, project builds, existing suite passes with it, the demonstration fails with it and passes without it.
 # usage: seedcheck.sh C05      (reads /tmp/wt-C05/SEED_OUT)
 ID=$1
-SRC=/tmp/wt-$ID
+SRC=${SEEDSRC:-/tmp/wt}-$ID
 CHK=/tmp/chk-$ID
 export GOFLAGS=-mod=mod GOPROXY=off GOSUMDB=off GOTOOLCHAIN=local
 set -u
